@@ -1,7 +1,7 @@
 #!/bin/bash
 # run every mutants/<PID>/<name>.diff against the check <PID>
 cd /verif
-for f in mutants/C*/*.diff; do
+for f in mutants/C[0-9]*/*.diff; do
   pid=$(basename $(dirname $f))
   out=$(tools/mutcheck.sh $f $pid quick 2>&1 | head -1)
   echo "HAND $(basename $f .diff) $pid $(echo $out | sed 's/.*rc=/rc=/')"
